@@ -25,7 +25,7 @@ CHECKS = {
  "C06": dict(
    text="Bounded symbolic model checking of the real uri.*Encoder/*Decoder, cookie escaping, net/url escaping, url.Values.Encode/ParseQuery, "
         "http.Header and cookie code, driven exactly as generated code drives them. All 48 (location, style, explode, shape) entries are classified by "
-        "the real validateParamStyle executed from SSA and every admitted one is checked for: no panic, decode(encode(v)) is v or an error, core-domain "
+        "the real validateParamStyle AND the generator's real isSupportedParamStyle, both executed from SSA (the latter reached through go:linkname natively and redirected to its SSA body under the engine), and every admitted one is checked for: no panic, decode(encode(v)) is v or an error, core-domain "
         "values always delivered, delimiter-bearing values refused, wire text equal to a reference written from the OpenAPI 3.0.3 style table; values are "
         "symbolic bytes (all 256 values) within small stated length/item bounds. Two empty-collection defects are carried as known findings.",
    design="4 C06", technique="symbolic execution of go/ssa + SMT, round-trip and reference-serializer assertions over a completely enumerated style table"),
@@ -34,21 +34,23 @@ CHECKS = {
         "FormatInt/ParseInt/ParseUint/Atoi, uuid String/Parse, net.ParseMAC, netip v4, time.Unix*/UnixMilli/UnixMicro, jx): for EVERY value - one full-width "
         "symbolic variable per type - the text has the format's syntax and parses back to the same value. int8..int64/uint8..uint64/int/uint and bool: every value "
         "(wide integers split into digit-count x sign classes; quick runs a subset of the classes incl. the 10/19/20-digit ones, thorough all); UUID all 2^128; IPv4 all 2^32; MAC length 6 "
-        "all 2^48; unix seconds/milli/micro/nano both directions; json.EncodeDuration equals time.Duration.String for every int64; six IPv6 address shapes with symbolic groups. NOT covered: floats, time.Format/Parse formats, duration decoding, URL, other IPv6 addresses, big.*, and JSON number-form unix timestamps of wide integers.",
+        "all 2^48; unix seconds/milli/micro/nano both directions (string forms and conv pairs end to end; the JSON NUMBER form in halves that meet at the decimal text: every canonical decimal of 1..19 digits decodes to exactly that instant, and every int64 instant is written as the JSON number of its unit count; that jx's number writer equals strconv's text is decided to 13 digits only); "
+        "json.EncodeDuration equals time.Duration.String for every int64; six IPv6 address shapes with symbolic groups; date / time / date-time through time.Format + time.Parse (json and conv): the decoding side for ALL texts of the format's shape (arbitrary digits, Z and +-hh:mm offsets) against the harness's own calendar rule, and the encode->decode composition for a symbolic instant per class of years (quick: year 2000 for date, 2000 UTC and 2024 at +05:30 / -08:00 for date-time, all 86400 seconds for time; thorough: every day of 0000..9999, every second of 1601..2400) with the zone offset a concrete case parameter. "
+        "NOT covered: floats, fractional seconds, custom layouts, duration decoding, URL, other IPv6 addresses, big.*, the jx number writer beyond 13 digits.",
    design="4 C13", technique="symbolic execution of go/ssa + SMT; wide div/mod chains via a self-checked bit-vector-to-integer translation"),
  "C18": dict(
-   text="Bounded symbolic model checking of the real json.Equal with the jx decoder underneath: pairs and triples of JSON texts built from 30 value templates whose leaves "
+   text="Bounded symbolic model checking of the real json.Equal with the jx decoder underneath: pairs and triples of JSON texts built from 31 value templates whose leaves "
         "(digits, string bytes, escape spellings, member names, whitespace bytes) are symbolic; asserts no error on well-formed texts, reflexivity, symmetry, transitivity and "
-        "agreement with equality of the denoted abstract values (objects unordered); single-byte corruption for totality. Structure and integer numbers only: "
+        "agreement with equality of the denoted abstract values (objects unordered; objects of up to three members with independent names, so a repeated name around a distinct one is inside); single-byte corruption for totality. Structure and integer numbers only: "
         "number spellings with '.', 'e', 'E' (ParseFloat/big.Rat) are outside and NOT decided.",
    design="4 C18", technique="symbolic execution of go/ssa + SMT, differential against abstract-value equality"),
  "C03": dict(
    text="Bounded symbolic model checking of (a) the validate.* kernels with fully symbolic parameters (validate.Int incl. multipleOf against an independently formulated reference; "
-        "count validators; String length in code points; UniqueItems) and (b) the Decode + Validate code GENERATED in this run for a matrix of 32 named schemas (integer bounds incl. "
+        "count validators; String length in code points; UniqueItems) and (b) the Decode + Validate code GENERATED in this run for a matrix of 39 named schemas (integer bounds incl. "
         "exclusive/negative, multipleOf, enums, string length, arrays with min/max/uniqueItems and item validation, objects with required/optional/nullable members, "
-        "additionalProperties:false, nesting, 10- and 18-member objects for the multi-byte required mask, three recursive schemas unfolded to depth 2, three allOf schemas, two maps, string-formatted uint64 members, three sum types): schema-directed JSON texts (valid instances and single-keyword mutants) with "
-        "symbolic leaves are accepted exactly when a reference validator over the abstract value says valid. One defect (absent optional array with minItems) is carried as a known finding. "
-        "Floats, pattern, discriminator sums, anyOf and deeper recursion are outside.",
+        "additionalProperties:false, nesting, 10- and 18-member objects for the multi-byte required mask, three recursive schemas unfolded to depth 2, three allOf schemas, two maps, string-formatted uint64 members, three sum types incl. instances that carry the required members of two variants (exactly-one reference), zero upper bounds, property counts of maps, a JSON number and string-formatted float members with CONCRETE literals): schema-directed JSON texts (valid instances and single-keyword mutants) with "
+        "symbolic leaves are accepted exactly when a reference validator over the abstract value says valid. Two defects (absent optional array with minItems; name-based sum inference refusing value-discriminated documents) are carried as known findings. "
+        "Symbolic floats, pattern, discriminator sums, anyOf and deeper recursion are outside.",
    design="4 C03", technique="symbolic execution of go/ssa (runtime kernels and generated code) + SMT, differential against a reference validator"),
  "C04": dict(
    text="Bounded symbolic model checking of the Encode/Decode code GENERATED in this run for the C03 schema matrix: every accepted instance (symbolic leaves) is re-encoded; the "
@@ -58,7 +60,7 @@ CHECKS = {
  "C09": dict(
    text="Bounded symbolic model checking of (a) internal/bitset.Set/Build and ir.JSONFields.RequiredMask (one step from an arbitrary state; byte boundaries to 20/33 members), "
         "(b) the security gate GENERATED in this run from /repo's templates: every requirement structure over 2 schemes, 12 seeded (thorough: all 255) over 3 schemes, global security "
-        "with overrides / explicit empty / anonymous alternative, 20 declared schemes, and operations that mention 9..12 distinct schemes so that their requirement masks have two bytes; per request the presence of each credential and the SecurityHandler verdict "
+        "with overrides / explicit empty / anonymous alternative, 20 declared schemes, five operations with an alternative that needs an unimplemented scheme type (openIdConnect; generated with ignore_not_implemented - the remaining alternatives must stay enforced), and operations that mention 9..12 distinct schemes so that their requirement masks have two bytes; per request the presence of each credential and the SecurityHandler verdict "
         "(accept / skip / error) are symbolic; asserts handler-runs => some alternative fully accepted, refused => 401 and one response, unmentioned schemes never consulted, and the 'if' "
         "direction outside the recorded fail-closed finding; (c) credential transport client->server for apiKey header/query/cookie, bearer, basic (real base64), oauth2 scopes with symbolic tokens.",
    design="4 C09", technique="symbolic execution of generated Go (go/ssa) + SMT; requirement structures enumerated, request dimension symbolic"),
@@ -88,10 +90,10 @@ CHECKS = {
    text="Bounded symbolic model checking of (a) jsonpointer.ResolveCtx (the cycle/depth mechanism): from every pre-state with 0..3 distinct in-progress references built through the real AddKey, one "
         "AddKey/Delete with a symbolic key refuses exactly in-progress keys and over-deep nesting, keeps the representation invariant, and Delete restores the pre-state; Key() at the root keys a local "
         "reference by (root, text); (b) the real parser.Parse on one API written as a root plus an external document with 10 reference sites (into the other file, root-relative after a reference into the other "
-        "file, relative inside the external file, shared targets, recursive schemas): for every symbolic keep/inline choice (four 5-site subsets quick, all 1024 thorough) the parsed API is the same, same-named "
+        "file, relative inside the external file, shared targets, recursive schemas) plus two security schemes given as references (to a scheme of the root and to a same-named scheme of the other file): for every symbolic keep/inline choice (subsets of the 12 sites quick, all 4096 thorough) the parsed API is the same, same-named "
         "components of the two files (names symbolic) are not confused, reference cycles between non-schema components and dangling references are refused, schema cycles and the same pointer in two files are "
         "accepted; Parse -> parser.Expand -> Parse gives the same API (dereferenced-spec clause, recursive schemas included). One hand-written reference graph; external SCHEMA references and the generated code "
-        "for referenced vs inlined documents are NOT decided. Concrete side-condition (not solver-decided): 53 schema-cycle shapes are generated by the tree's generator and must build (recursive types).",
+        "for referenced vs inlined documents are NOT decided. Concrete side-condition (not solver-decided): 53 schema-cycle shapes are generated by the tree's generator and must build (recursive types), and six NON-cyclic diamonds (one component reached twice from one allOf / oneOf / property list, in both orders) must be accepted - a refusal is reported as a violation.",
    design="4 C07", technique="symbolic execution of go/ssa + SMT: one inductive step of the cycle/depth kernel from reachable pre-states; parser.Parse / Expand under symbolic inline choices and component names with stubbed YAML environment; concrete generate-and-build of cycle shapes"),
  "C11": dict(
    text="Bounded symbolic model checking of totality (no panic, termination) of the parser: (a) parser.Parse executed from SSA on a valid OpenAPI 3.1 skeleton that uses every component kind, where a "
@@ -119,7 +121,7 @@ CHECKS = {
         "parameters of every location incl. arrays and a schema default, a JSON body with optional/defaulted/array members) and symbolic handler responses (200 with header, 4XX pattern with symbolic "
         "code, default codes, no-content) it asserts: a successful call ran middleware and handler once with exactly the caller's values (defaults applied), the middleware sees what the handler "
         "sees, the caller gets exactly the variant/status/header/body returned, and core-domain values are always delivered. A second spec adds path parameters declared in another order than the template, path-item-level and overriding parameters, zero-valued defaults in query/header/cookie, a required integer header, an enum "
-        "parameter and no-content exact/pattern/default responses with headers. Two specs (four operations); the spec dimension is not explored.",
+        "parameter, no-content exact/pattern/default responses with headers, and structured response headers (exploded and non-exploded object, array). Two specs (four operations); the spec dimension is not explored.",
    design="4 C01", technique="symbolic execution of generated client and server Go code (go/ssa) in an in-process loop-back + SMT"),
  "C15": dict(
    text="Bounded symbolic model checking of a server GENERATED in this run (C01's spec) against hand-built *http.Request values that bypass net/http's validation: method from six choices x "
